@@ -1,10 +1,100 @@
 import Vegeta.Go.Proto
-/-! Driver operations of property C19 (ops are named `c19.<name>`). -/
+import Vegeta.Model.Flags
+/-! Driver operations of property C19 (ops are named `c19.<name>`); each mirrors the op
+`flag.<name>` / `resolver.rotation` / `attack.cmdline` of /repo/verif_main.go and prints the
+same line. -/
 namespace Vegeta.Driver.C19
-open Vegeta.Go Vegeta.Go.Proto
+open Vegeta.Go Vegeta.Go.Proto Vegeta.Model.Flags
 
-def handle (_op : String) (args : List String) : Option String :=
-  match _op with
+def insertKV (x : Bytes × List Bytes) : List (Bytes × List Bytes) → List (Bytes × List Bytes)
+  | [] => [x]
+  | y :: ys => if bytesLe x.1 y.1 then x :: y :: ys else y :: insertKV x ys
+
+/-- `verifHeaderString`: keys sorted, `n k1 c1 v… k2 c2 v…` -/
+def showMap (m : List (Bytes × List Bytes)) : String :=
+  let sorted := m.foldr insertKV []
+  toString sorted.length ++ sorted.foldl (fun s (k, vs) =>
+    s ++ " " ++ hexEncode k ++ " " ++ toString vs.length ++ vs.foldl (fun s v => s ++ " " ++ hexEncode v) "") ""
+
+def statusChars (os : List (Outcome Unit)) : String :=
+  String.ofList (os.map fun o => match o with | .ok _ => 'k' | .error _ => 'e' | .panic => 'p')
+
+def allBytes (args : List String) : Option (List Bytes) := args.mapM hexDecode
+
+def parseFlagArgs : List String → Option (List FlagArg)
+  | [] => some []
+  | "rate" :: v :: r => do pure (.rate (← hexDecode v) :: (← parseFlagArgs r))
+  | "header" :: v :: r => do pure (.header (← hexDecode v) :: (← parseFlagArgs r))
+  | "maxbody" :: v :: r => do pure (.maxBody (← hexDecode v) :: (← parseFlagArgs r))
+  | "dnsttl" :: v :: r => do pure (.dnsTTL (← hexDecode v) :: (← parseFlagArgs r))
+  | "connectto" :: v :: r => do pure (.connectTo (← hexDecode v) :: (← parseFlagArgs r))
+  | "maxworkers" :: v :: r => do pure (.maxWorkers (← v.toNat?) :: (← parseFlagArgs r))
+  | _ => none
+
+def handle (op : String) (args : List String) : Option String :=
+  match op with
+  | "c19.rate" => do
+    let (v, _) ← (bytes).run args
+    let r := rateSet defaultRate v
+    match r.out with
+    | .ok _ => pure s!"ok {r.st.freq} {r.st.per} {hexEncode (rateString r.st)}"
+    | .error _ => pure "err"
+    | .panic => pure "panic"
+  | "c19.ratestring" => do
+    let ((f, p), _) ← (do let f ← int; let p ← int; pure (f, p)).run args
+    let s := rateString ⟨f, p⟩
+    let r := rateSet ⟨0, 0⟩ s
+    match r.out with
+    | .ok _ => pure s!"ok {hexEncode s} {r.st.freq} {r.st.per}"
+    | .error _ => pure s!"ok {hexEncode s} err"
+    | .panic => pure "panic"
+  | "c19.headers" => do
+    let vs ← allBytes args
+    let (os, h) := setAll headerSet [] vs
+    pure s!"ok {statusChars os} {showMap h}"
+  | "c19.maxbody" => do
+    let (v, _) ← (bytes).run args
+    let r := maxBodySet (-7) v
+    match r.out with
+    | .ok _ => pure s!"ok {r.st} {hexEncode (maxBodyString r.st)}"
+    | .error _ => pure "err"
+    | .panic => pure "panic"
+  | "c19.dnsttl" => do
+    let (v, _) ← (bytes).run args
+    let r := dnsTTLSet (-7) v
+    match r.out with
+    | .ok _ => pure s!"ok {r.st} {hexEncode (dnsTTLString r.st)}"
+    | .error _ => pure "err"
+    | .panic => pure "panic"
+  | "c19.connectto" => do
+    let vs ← allBytes args
+    let (os, m) := setAll connectToSet [] vs
+    pure s!"ok {statusChars os} {showMap m} {hexEncode (connectToString m)}"
+  | "c19.csl" => do
+    let (v, _) ← (bytes).run args
+    let l := cslSet v
+    pure s!"ok {showBytesList l} {hexEncode (cslString l)}"
+  | "c19.resolvers" => do
+    let (v, _) ← (bytes).run args
+    match normalizeAddrs (cslSet v) with
+    | .ok l => pure s!"ok {showBytesList l}"
+    | .error _ => pure "err"
+    | .panic => pure "panic"
+  | "c19.rotation" => do
+    let (n, rest) ← (nat).run args
+    let addrs ← allBytes rest
+    match rotation addrs n 0 with
+    | .ok l => pure ("ok" ++ l.foldl (fun s x => s ++ " " ++ hexEncode x) "")
+    | .error _ => pure "err"
+    | .panic => pure "panic"
+  | "c19.cmdline" => do
+    let fas ← parseFlagArgs args
+    match parseArgs defaultOpts fas with
+    | .ok o =>
+      let guard := if attackGuard o.maxWorkers o.rate then "guard" else "pass"
+      pure s!"ok {o.rate.freq} {o.rate.per} {o.maxWorkers} {guard} {o.maxBody} {o.dnsTTL} {showMap o.headers} | {showMap o.connectTo}"
+    | .error _ => pure "err"
+    | .panic => pure "panic"
   | _ => none
 
 end Vegeta.Driver.C19
